@@ -1,5 +1,7 @@
 """Reader for parsing a DiffX file into DOM objects."""
 
+from pydiffx.dom.properties import OptionProperty
+from pydiffx.errors import DiffXParseError, DiffXUnknownOptionError
 from pydiffx.reader import DiffXReader
 from pydiffx.sections import Section
 
@@ -81,10 +83,14 @@ class DiffXDOMReader(object):
                 section_id = section_info['section']
                 section_handler = section_handlers[section_id]
 
-                cur_section = (
-                    section_handler(diffx, cur_section, section_info) or
-                    cur_section
-                )
+                try:
+                    cur_section = (
+                        section_handler(diffx, cur_section, section_info) or
+                        cur_section
+                    )
+                except TypeError as e:
+                    raise DiffXParseError(str(e),
+                                          linenum=section_info['line'])
 
         return diffx
 
@@ -182,7 +188,8 @@ class DiffXDOMReader(object):
             pydiffx.dom.objects.DiffXChangeSection:
             The new change section.
         """
-        return diffx.add_change(**section_info['options'])
+        return self._set_container_options(diffx.add_change(),
+                                           section_info['options'])
 
     def _read_file_section(self, diffx, section, section_info):
         """Read a file section.
@@ -203,7 +210,25 @@ class DiffXDOMReader(object):
             pydiffx.dom.objects.DiffXFileSection:
             The new file section.
         """
-        return diffx.changes[-1].add_file(**section_info['options'])
+        return self._set_container_options(diffx.changes[-1].add_file(),
+                                           section_info['options'])
+
+    def _set_container_options(self, section, options):
+        """Set options parsed from a header on a container section.
+
+        Only names backed by an option property can be set this way. Any
+        other name is not an option of the section.
+        """
+        for name, value in options.items():
+            if not any(isinstance(vars(_cls).get(name), OptionProperty)
+                       for _cls in type(section).__mro__):
+                raise DiffXUnknownOptionError(
+                    '"%s" is not a valid option or content section'
+                    % name)
+
+            setattr(section, name, value)
+
+        return section
 
     def _set_content_options(self, section, options):
         options.pop('length', None)
